@@ -41,9 +41,11 @@ def main():
            "result_is_containers": False, "tmp_left": [], "pkg_dir_is_tmp": False, "stage": "construct"}
     import python_on_whales
     kind = sc["container"]
-    python_on_whales.SCENARIO = {"container": "fail_after" if kind.startswith("fail_at_") else kind, "chunks": 3,
-                                 "fail_at": int(kind[-1]) if kind.startswith("fail_at_") else 0}
+    main_scenario = {"container": "fail_after" if kind.startswith("fail_at_") else kind, "chunks": 3,
+                     "fail_at": int(kind[-1]) if kind.startswith("fail_at_") else 0}
+    python_on_whales.SCENARIO = main_scenario
     returned_path = None
+    prior_path = None
     try:
         if sc["backend"] == "atlas":
             from func_adl_xAOD.atlas.xaod.local_dataset import xAODDataset as DS
@@ -58,6 +60,21 @@ def main():
         if sc["outdir"] == "given":
             kw["output_directory"] = Path(out)
         ds = DS(files if n != 1 else files[0], **kw)
+        rec["stage"] = "prior"
+        prior_path = None
+        if sc.get("prior", "none") != "none":
+            # an earlier query on the same dataset object, with its own docker image
+            python_on_whales.SCENARIO = {"container": "ok_result", "chunks": 3, "fail_at": 0}
+            st0 = ds.MetaData({"metadata_type": "docker", "image": "vp/earlier:9"})
+            body0 = "j.pt()" if sc["prior"] == "md_ok" else "(1 < j.pt() < 2)"
+            st0 = st0.Select("lambda e: e.%s('bk').Select(lambda j: %s)" % (coll, body0))
+            try:
+                res0 = asyncio.run(ds.execute_result_async(st0.query_ast, "vp"))
+                prior_path = Path(res0[0]) if isinstance(res0, (list, tuple)) and res0 else None
+            except Exception:  # noqa
+                pass
+            del python_on_whales.CALLS[:]
+            python_on_whales.SCENARIO = main_scenario
         rec["stage"] = "execute"
         stream = ds
         if sc["md"] == "present":
@@ -89,7 +106,7 @@ def main():
         rec["pkg_dir_is_tmp"] = os.path.realpath(sh).startswith(os.path.realpath(tmpd))
     left = []
     for x in sorted(os.listdir(tmpd)):
-        if returned_path is not None and os.path.realpath(os.path.join(tmpd, x)) == os.path.realpath(str(returned_path)):
+        if any(p is not None and os.path.realpath(os.path.join(tmpd, x)) == os.path.realpath(str(p)) for p in (returned_path, prior_path)):
             continue
         left.append(x)
     rec["tmp_left"] = left
